@@ -2,6 +2,7 @@ package props
 
 import (
 	"fmt"
+	"go/token"
 	"go/types"
 	"sort"
 	"strings"
@@ -319,6 +320,14 @@ func checkFlattenerDispatch(c *core.Ctx, r *core.Report) {
 	for _, n := range []string{"ParseRawJsonObject", "parseNonJaegerRawJsonArray", "parseSingleString", "parseSingleNumber", "parseSingleBool", "parseSingleNull"} {
 		handlers[c.Obj(pkgWriter, n)] = true
 	}
+	typeConst := map[string]int64{}
+	for _, tn := range []string{"Object", "Array"} {
+		if k, ok := c.ExtObj("github.com/buger/jsonparser", tn).(*types.Const); ok {
+			if v, ok := constInt64(k); ok {
+				typeConst[tn] = v
+			}
+		}
+	}
 	n := 0
 	for _, cl := range core.Closures(outer) {
 		if len(cl.Params) < 3 {
@@ -332,7 +341,7 @@ func checkFlattenerDispatch(c *core.Ctx, r *core.Report) {
 					return false
 				}
 			}
-			if ret, ok := in.(*ssa.Return); ok && core.ReturnSuccess(ret) != core.No && early == nil {
+			if ret, ok := in.(*ssa.Return); ok && core.ReturnSuccess(ret) != core.No && early == nil && !isTimestampScalarSkip(cl, ret.Block(), typeConst) {
 				early = ret
 			}
 			return true
@@ -344,6 +353,86 @@ func checkFlattenerDispatch(c *core.Ctx, r *core.Report) {
 		}
 	}
 	r.Floor("FLATTEN", "per-key callbacks of the JSON flattener", n, 1)
+}
+
+// isTimestampScalarSkip: the block lies where the full column name is known to equal the timestamp key handed to
+// the flattener AND the value is known to be a scalar (its JSON type is known not to be Object and not to be
+// Array): the one key the flattener may leave out, because the event's time is carried separately.  The same test
+// made inside the scalar value handlers (where it lives today) or hoisted into the callback in front of them is
+// accepted; a test that also covers objects and arrays drops their whole subtree and is not.
+func isTimestampScalarSkip(cl *ssa.Function, b *ssa.BasicBlock, typeConst map[string]int64) bool {
+	keyIsTs := false
+	notObj, notArr := false, false
+	isTsKey := func(v ssa.Value) bool {
+		ld, ok := v.(*ssa.UnOp)
+		if !ok || ld.Op != token.MUL {
+			return false
+		}
+		switch p := ld.X.(type) {
+		case *ssa.FreeVar:
+			pt, ok := p.Type().Underlying().(*types.Pointer)
+			return ok && types.Identical(pt.Elem(), types.Typ[types.String])
+		case *ssa.Parameter:
+			pt, ok := p.Type().Underlying().(*types.Pointer)
+			return ok && types.Identical(pt.Elem(), types.Typ[types.String])
+		case *ssa.UnOp:
+			// the captured pointer is itself loaded from the closure's free variable cell
+			if fv, ok := p.X.(*ssa.FreeVar); ok {
+				_ = fv
+				return true
+			}
+		}
+		return false
+	}
+	isValueType := func(v ssa.Value) bool {
+		n, ok := v.Type().(*types.Named)
+		return ok && n.Obj().Name() == "ValueType"
+	}
+	for x := b; x != nil && x.Idom() != nil; x = x.Idom() {
+		idom := x.Idom()
+		ifi, ok := core.LastIf(idom)
+		if !ok || len(x.Preds) != 1 || idom.Succs[0] == idom.Succs[1] {
+			continue
+		}
+		onTrue := idom.Succs[0] == x
+		bo, ok := ifi.Cond.(*ssa.BinOp)
+		if !ok || (bo.Op != token.EQL && bo.Op != token.NEQ) {
+			continue
+		}
+		equal := (bo.Op == token.EQL) == onTrue
+		if (isTsKey(bo.X) || isTsKey(bo.Y)) && equal {
+			keyIsTs = true
+			continue
+		}
+		vt, kv := bo.X, bo.Y
+		if !isValueType(vt) {
+			vt, kv = bo.Y, bo.X
+		}
+		if !isValueType(vt) {
+			continue
+		}
+		k, isK := core.ConstIntValue(kv)
+		if !isK {
+			continue
+		}
+		if equal {
+			// the type is known exactly
+			if k != typeConst["Object"] {
+				notObj = true
+			}
+			if k != typeConst["Array"] {
+				notArr = true
+			}
+		} else {
+			if k == typeConst["Object"] {
+				notObj = true
+			}
+			if k == typeConst["Array"] {
+				notArr = true
+			}
+		}
+	}
+	return keyIsTs && notObj && notArr
 }
 
 // checkIndexTimestampKey — the timestamp field of a document depends on the index it goes to (jaeger-* indexes carry
